@@ -1,6 +1,6 @@
 """C12 — concurrent requests do not interfere; lazy WSDL is built once, served whole.
 
-System: one Application + protocols + WsgiApplication shared by 2..4 simulated
+System: one Application + protocols + WsgiApplication shared by 2..6 simulated
 caller threads (sim.sched: baton-passing real threads, every spyne source line
 a pre-emption point, SimLocks).  Searched: interleavings (PCT change points,
 region-targeted switching inside the shared-state catalogue, start skew).
@@ -31,7 +31,7 @@ LEVEL = 'exploration'
 BUDGET = {'quick': 420, 'thorough': 3300}
 BLOCK = 40
 BLOCK_TIMEOUT = 900
-RULE = ('one run = 2..4 caller threads issuing 1..3 requests each (distinct '
+RULE = ('one run = 2..4 (the last groups of the plan: 5..6) caller threads issuing 1..3 requests each (distinct '
         'methods and arguments, faults, validation failures, unknown methods, '
         '?wsdl) against ONE WsgiApplication under one seeded schedule: 0..4 '
         'PCT change points over the run length plus probabilistic switching '
@@ -66,7 +66,7 @@ ASSUMPTIONS = [
     'targeted region); C-level calls (json, yaml, msgpack, lxml parsing and '
     'serialisation) are atomic steps, as they are under the GIL; lxml schema '
     'validation, which releases it, is bracketed by seam points',
-    'at most 4 callers x 3 requests and 4 uniform change points per run',
+    'at most 4 callers x 3 requests (crowd groups: 6 callers x 2 requests) and 4 uniform change points per run',
     'responses are compared in canonical form (prefix spelling, 0x addresses '
     'masked)',
 ]
@@ -145,17 +145,23 @@ def gen_cases(tier, verif_seed):
     opcode_share = {'quick': .25, 'thorough': .5}[tier]
     cat = sorted(catalogue())
     cat_list = [list(c) for c in cat]   # one object shared by every case
-    for g in range(n_groups):
+    # the last groups of the plan are crowds: 5..6 callers with 1..2 requests
+    # each (appended, so that the cases before them are what they were)
+    n_crowd = {'quick': 80, 'thorough': 4000}[tier]
+    for g in range(n_groups + n_crowd):
         gseed = derive(ID, verif_seed, 'g', g) & 0xffffffffffff
         rng = Streams(gseed)['workload']
         pair = rng.choice(PAIRS)
         val = rng.choice(validators_for(pair[0]))
         n_callers = rng.choice((2, 2, 3, 3, 4))
+        crowd = g >= n_groups
+        if crowd:
+            n_callers = rng.choice((5, 6))
         theme = KINDS if rng.random() < .35 else \
                                rng.sample(KINDS, rng.choice((1, 2, 2, 3)))
         callers, aseeds = [], []
         for c in range(n_callers):
-            nreq = rng.randint(1, 3)
+            nreq = rng.randint(1, 2 if crowd else 3)
             callers.append([_request_mix(rng, theme) for _ in range(nreq)])
             aseeds.append([rng.getrandbits(32) for _ in range(nreq)])
         poly = rng.random() < .3
